@@ -98,6 +98,12 @@ CHECKS = {
                      "BER of the same value (member reordering, explicit DEFAULTs, dirty unused bits, constructed strings, length forms); DER, CANONICAL-XER, canonical "
                      "UPER and OER of each must equal the base's and compare_struct must be 0; default and -fwide-types builds.",
                 note="Only value-preserving transformations; transformations without a site in the value are not counted; values sampled."),
+    "C08": dict(level="exploration", engine="vdriver", ref="DESIGN.md 4/C08",
+                technique="reference-model monitor: asn_check_constraints verdicts on valid / single-fault / multi-fault values vs X.680 constraint-set semantics; exact-size error buffers under ASan",
+                text="Generated modules with non-extensible value/SIZE/FROM constraints at every depth; valid values, single-fault mutants (one constraint violated at one "
+                     "position, every gap and both bounds) and multi-fault mutants enter by BER; asn_check_constraints is called with error buffers of 0/1/2/16/128 bytes "
+                     "and NULL; the verdict must equal the model's, must not depend on the buffer, and a failure message must be terminated, fit, and name a type.",
+                note="Extensible constraints, WITH COMPONENTS, PATTERN, CONTAINING not generated; BMPString U+FFFE/U+FFFF values are not judged; sampled values."),
 }
 
 PENDING_REASON = "check not implemented yet (bring-up in progress; see DESIGN.md section 9)"
